@@ -9,7 +9,7 @@ use crate::runner::*;
 use crate::shape::var_to_j;
 use crate::src::Src;
 
-pub const RULE: &str = "enumeration of array lengths 0..7 x start/stop in {omitted, -9..9, +-(2^31-1), +-(2^31-2), -2^31} x step in {omitted, -5..5, +-(2^31-1), +-(2^31-2), -2^31, 2^30} through expression text and through Variable::slice; random triples over the whole i32 range on arrays up to 40 elements; non-array subjects of every type; all indexes -12..12 and extremes; oracle = independent transcription of Python's slice.indices + range in 128-bit arithmetic; non-trivial = triple in a boundary regime (an endpoint omitted, negative, or beyond either end, or |step| > len); distinct by (len, start, stop, step)";
+pub const RULE: &str = "enumeration of array lengths 0..7 x start/stop in {omitted, -9..9, +-(2^31-1), +-(2^31-2), -2^31} x step in {omitted, -5..5, +-(2^31-1), +-(2^31-2), -2^31, 2^30} through expression text, through Variable::slice, through serde_json::Value / Rust-collection inputs (inside an object and with the array itself as the document) and with the result read back through serde; random triples over the whole i32 range on arrays up to 40 elements; non-array subjects of every type; all indexes -12..12 and extremes; oracle = independent transcription of Python's slice.indices + range in 128-bit arithmetic; non-trivial = triple in a boundary regime (an endpoint omitted, negative, or beyond either end, or |step| > len); distinct by (len, start, stop, step)";
 
 fn opt_text(v: Option<i32>) -> String {
     v.map(|x| x.to_string()).unwrap_or_default()
